@@ -113,7 +113,7 @@ func runC17(r *Run) {
 		r.atLeast("error edges", len(errEdges), 3)
 		okNeg := true
 		for _, e := range errEdges {
-			if _, hit := reach(pointOfEdge(e), anyNext, nil, nil); hit != nil {
+			if _, hit := reachEdge(e, anyNext, nil, nil); hit != nil {
 				okNeg = false
 			}
 		}
@@ -122,7 +122,7 @@ func runC17(r *Run) {
 		okHit := true
 		for _, l := range c.lookups {
 			for _, e := range tupleEdges(c.h, l.Value(), 0, func(br branch) (int, bool) { return br.truthSlot(true) }) {
-				if _, hit := reach(pointOfEdge(e), anyNext, nil, nil); hit != nil {
+				if _, hit := reachEdge(e, anyNext, nil, nil); hit != nil {
 					okHit = false
 				}
 			}
@@ -148,7 +148,7 @@ func runC17(r *Run) {
 		}
 		es := tupleEdges(c.h, c.lock.Value(), -1, func(br branch) (int, bool) { return br.nilSlot(true) })
 		r.need(len(es) == 1, "Lock error is tested")
-		_, hit := reach(pointOfEdge(es[0]), orPred(isReturn, func(in ssa.Instruction) bool { return isCallTo(in, isNextName) }), nil, isDeferUnlock)
+		_, hit := reachEdge(es[0], orPred(isReturn, func(in ssa.Instruction) bool { return isCallTo(in, isNextName) }), nil, isDeferUnlock)
 		r.check(hit == nil, "keyed:unlock-deferred-after-lock", r.pos(c.lock.Instr), "after a successful Lock the Unlock is deferred before anything can return or run the handler", "a return (or the handler) is reachable after Lock succeeded without the Unlock being deferred: the key stays locked forever")
 		// same key
 		sameKey := true
